@@ -97,6 +97,17 @@ def effect_harness(I: Interp) -> None:
                         found.append(f"iteration over an ad-hoc set, line {it.lineno}")
             I.prove(f"E-{cls.__name__}.{name}:draws-only-from-locally-seeded-RNGs",
                     z3.BoolVal(not found), "; ".join(found))
+    # nothing on the way from the arguments to the model takes a value from the iteration order
+    # of an ad-hoc set (str/bytes elements: PYTHONHASHSEED) - every function and validator of
+    # the virtual ECU command and of the server module
+    from gallia.commands.script import vecu
+    from . import effects
+    for mod in (sv, vecu):
+        for q, fn, owner in effects.functions_of(mod):
+            uses = effects.set_order_uses(fn)
+            n_sites += 1
+            I.prove(f"E-{q.split('gallia.')[-1]}:no-value-from-the-iteration-order-of-a-set",
+                    z3.BoolVal(not uses), "; ".join(uses))
     I.prove("E-unseeded-RNG-only-in-security_access",
             z3.BoolVal(unseeded == ["RandomUDSServer.security_access"]), str(unseeded))
     I.prove("E-call-sites-found", z3.BoolVal(n_sites >= 5), str(n_sites))
@@ -314,7 +325,38 @@ def native_vecu(model: dict) -> tuple[bool, str]:
     return False, f"seeds {seeds} are passed through unchanged"
 
 
+def native_hashseed() -> tuple[bool, str]:
+    """the same arguments given as strings (as the command line delivers them), three processes
+    with different PYTHONHASHSEED: the models must be identical"""
+    import os
+    import subprocess
+    import sys
+    prog = (
+        "import asyncio, logging\n"
+        "logging.disable(logging.CRITICAL)\n"
+        "import gallia.command\n"
+        "from gallia.commands.script import vecu\n"
+        "cfg = vecu.RngVirtualECUConfig(target='unix-lines:///tmp/c16-h.sock', seed=5,\n"
+        "    mandatory_sessions=['1', '2', '3'], optional_sessions=[str(i) for i in range(4, 40)],\n"
+        "    mandatory_services=['16', '39', '62'], optional_services=['17', '34', '46', '49', '20', '25'])\n"
+        "s = vecu.RngVirtualECU(cfg)._server()\n"
+        "asyncio.run(s.setup())\n"
+        "print(sorted((k, sorted((int(a), b) for a, b in v.items())) for k, v in s.services.items()))\n")
+    outs = []
+    for hs in ("1", "2", "3"):
+        env = dict(os.environ, PYTHONHASHSEED=hs)
+        r = subprocess.run([sys.executable, "-c", prog], capture_output=True, text=True, env=env,
+                           timeout=120)
+        outs.append(r.stdout.strip() or r.stderr.strip()[-300:])
+    if len(set(outs)) > 1:
+        return True, ("same seed and (string) arguments, PYTHONHASHSEED=1/2/3: different models, "
+                      f"e.g. {outs[0][:160]} ... vs {outs[1][:160]}")
+    return False, "models identical across three hash seeds: " + outs[0][:120]
+
+
 def native_replay(unit: str, obligation: str, model: dict) -> tuple[bool, str]:
+    if "iteration-order-of-a-set" in obligation:
+        return native_hashseed()
     if unit.startswith("vecu/"):
         return native_vecu(model)
     # an effect obligation has no input of its own: its native counterpart is the stand-in
